@@ -20,6 +20,23 @@ def Outcome.isPanic {α : Type} : Outcome α → Bool
   | .error (.panic _) => true
   | _ => false
 
+@[simp] theorem Outcome.pure_eq {α : Type} (a : α) : (pure a : Outcome α) = .ok a := rfl
+@[simp] theorem Outcome.map_ok {α β : Type} (f : α → β) (a : α) :
+    f <$> (Except.ok a : Outcome α) = .ok (f a) := rfl
+@[simp] theorem Outcome.bind_ok {α β : Type} (a : α) (f : α → Outcome β) :
+    (Except.ok a : Outcome α) >>= f = f a := rfl
+@[simp] theorem Outcome.bind_error {α β : Type} (e : Fail) (f : α → Outcome β) :
+    (Except.error e : Outcome α) >>= f = .error e := rfl
+@[simp] theorem Outcome.bind_ok_right {α : Type} (a : Outcome α) :
+    (a >>= fun r => (Except.ok r : Outcome α)) = a := by
+  cases a <;> rfl
+@[simp] theorem Outcome.throw_eq {α : Type} (e : Fail) : (throw e : Outcome α) = .error e := rfl
+
+/-- `xs[0]` in Go: panics on an empty slice. -/
+def headOrPanic {α : Type} (site : String) : List α → Outcome α
+  | [] => throw (.panic site)
+  | x :: _ => pure x
+
 /-- `NoPanic o`: the Go function returned (a value or an `error`). -/
 def NoPanic {α : Type} (o : Outcome α) : Prop := o.isPanic = false
 
